@@ -266,9 +266,11 @@ def callCost (spec : Nat) (transfersValue isCold : Bool) (deleg : Option Bool) (
     else gas1 + NEWACCOUNT
   else gas1
 
-/-- `memory_gas(num_words)`: all three operations saturate -/
+/-- `memory_gas(num_words)`: `MEMORY as u128 * words + words * words / 512` in `u128` (no wrap for
+`num_words < 2^64`: the sum stays below 2^120), saturated to `u64::MAX` -/
 def memoryGas (numWords : Nat) : Nat :=
-  saturatingAdd (saturatingMul MEMORY numWords) (saturatingMul numWords numWords / 512)
+  let cost := MEMORY * numWords + numWords * numWords / 512
+  if cost > U64 - 1 then U64 - 1 else cost
 
 /-- `memory_gas_for_len(len: usize)` -/
 def memoryGasForLen (len : Nat) : Nat := memoryGas (numWords len)
